@@ -8,11 +8,14 @@ package metagen
 
 import (
 	"fmt"
+	"strings"
 	"time"
 
 	"github.com/hashicorp/raft"
 	metasvc "github.com/openGemini/openGemini/app/ts-meta/meta"
 	"github.com/openGemini/openGemini/lib/config"
+	"github.com/openGemini/openGemini/lib/index"
+	"github.com/openGemini/openGemini/lib/tokenizer"
 	"github.com/openGemini/openGemini/lib/util/lifted/influx/influxql"
 	meta "github.com/openGemini/openGemini/lib/util/lifted/influx/meta"
 	proto2 "github.com/openGemini/openGemini/lib/util/lifted/influx/meta/proto"
@@ -47,6 +50,57 @@ type Op struct {
 	Merge *int64 `json:"merge,omitempty"`
 	// fields for schema commands: name, type, endTime triples
 	F []Field `json:"f,omitempty"`
+	// M: CREATE MEASUREMENT in the shape of one concrete sender (statement executor / logstream handler); nil = the older encoding
+	M *MstSpec `json:"m,omitempty"`
+	// O: measurement options as the logstream handlers send them (create / update logstream)
+	O *OptSpec `json:"o,omitempty"`
+	// Sh: shards of the partition a migrate event is about (ts-meta attaches Data.GetShardDurationsByDbPt to the event)
+	Sh []ShardDur `json:"sh,omitempty"`
+}
+
+// MstSpec carries what a CREATE MEASUREMENT statement / a create-logstream request adds to the command.
+type MstSpec struct {
+	Shape   string     `json:"shape"` // "sql": coordinator executeCreateMeasurementStatement, "logstream": httpd serveCreateLogstream
+	PK      []string   `json:"pk,omitempty"`
+	SK      []string   `json:"sk,omitempty"`
+	PropK   []string   `json:"propk,omitempty"`
+	PropV   []string   `json:"propv,omitempty"`
+	TCDur   int64      `json:"tcdur,omitempty"`
+	Compact string     `json:"compact,omitempty"`
+	IdxT    []string   `json:"idxt,omitempty"` // index type names
+	IdxL    [][]string `json:"idxl,omitempty"` // indexed columns per index type
+	TTL     int64      `json:"ttl,omitempty"`
+}
+
+type OptSpec struct {
+	CI       bool   `json:"ci,omitempty"`
+	AM       bool   `json:"am,omitempty"`
+	WT       int    `json:"wt,omitempty"`
+	RT       int    `json:"rt,omitempty"`
+	SC       int    `json:"sc,omitempty"`
+	Split    string `json:"split,omitempty"`
+	TagSplit string `json:"tagsplit,omitempty"`
+	Ttl      int64  `json:"ttl,omitempty"`
+}
+
+func (p *OptSpec) options() *meta.Options {
+	return &meta.Options{CaseInSensitive: p.CI, AppendMeta: p.AM, WriteThreshold: p.WT, ReadThreshold: p.RT, StorageCapacity: p.SC, SplitChar: p.Split, TagsSplit: p.TagSplit, Ttl: p.Ttl}
+}
+
+// ShardDur is one entry of DbPtInfo.Shards (meta.ShardDurationInfo) in replayable form.
+type ShardDur struct {
+	ID      uint64 `json:"id"`
+	SG      uint64 `json:"sg"`
+	RP      string `json:"rp"`
+	Typ     string `json:"typ,omitempty"`
+	DSL     int    `json:"dsl,omitempty"`
+	DSID    uint64 `json:"dsid,omitempty"`
+	RO      bool   `json:"ro,omitempty"`
+	Eng     uint32 `json:"eng,omitempty"`
+	Tier    uint64 `json:"tier,omitempty"`
+	TierDur int64  `json:"tierdur,omitempty"`
+	Dur     int64  `json:"dur,omitempty"`
+	Merge   int64  `json:"merge,omitempty"`
 }
 
 type Field struct {
@@ -113,6 +167,15 @@ func (o Op) String() string {
 	}
 	if len(o.F) > 0 {
 		add("f", o.F)
+	}
+	if o.M != nil {
+		add("m", fmt.Sprintf("%+v", *o.M))
+	}
+	if o.O != nil {
+		add("o", fmt.Sprintf("%+v", *o.O))
+	}
+	if len(o.Sh) > 0 {
+		add("sh", fmt.Sprintf("%+v", o.Sh))
 	}
 	return s
 }
@@ -242,6 +305,47 @@ func (o Op) Bytes() []byte {
 		// B = with index relation, B2 = with Options (SQL statement always passes Options), F = schema info, ID = sgid of ski
 		cmd := &proto2.CreateMeasurementCommand{DBName: proto.String(o.DB), RpName: proto.String(o.RP), Name: proto.String(o.Mst),
 			EngineType: proto.Uint32(uint32(o.N)), InitNumOfShards: proto.Int32(int32(o.N2)), Ski: ski(o.SS, o.S, o.ID)}
+		if m := o.M; m != nil && m.Shape == "sql" {
+			// coordinator executeCreateMeasurementStatement: ColStoreInfo, index relation and Options{Ttl} are ALWAYS passed
+			var prop [][]string
+			if len(m.PropK) > 0 {
+				prop = [][]string{m.PropK, m.PropV}
+			}
+			cmd.ColStoreInfo = meta.NewColStoreInfo(m.PK, m.SK, prop, time.Duration(m.TCDur), m.Compact).Marshal()
+			ir := influxql.NewIndexRelation()
+			for i, tn := range m.IdxT {
+				oid, err := index.GetIndexTypeByName(tn)
+				if err != nil {
+					panic("harness: " + err.Error())
+				}
+				ir.Oids = append(ir.Oids, uint32(oid))
+				ir.IndexNames = append(ir.IndexNames, tn)
+				ir.IndexList = append(ir.IndexList, &influxql.IndexList{IList: m.IdxL[i]})
+				switch oid {
+				case index.TimeCluster:
+					ir.IndexOptions = append(ir.IndexOptions, &influxql.IndexOptions{Options: []*influxql.IndexOption{{TimeClusterDuration: time.Duration(m.TCDur)}}})
+				case index.Text:
+					ir.IndexOptions = append(ir.IndexOptions, &influxql.IndexOptions{Options: []*influxql.IndexOption{{Tokens: tokenizer.CONTENT_SPLITTER}}})
+				default:
+					ir.IndexOptions = append(ir.IndexOptions, &influxql.IndexOptions{})
+				}
+			}
+			cmd.IR = meta.EncodeIndexRelation(ir)
+			if len(o.F) > 0 {
+				cmd.SchemaInfo = fields(o.F)
+			}
+			cmd.Options = (&meta.Options{Ttl: m.TTL}).Marshal()
+			return enc(proto2.Command_CreateMeasurementCommand, proto2.E_CreateMeasurementCommand_Command, cmd)
+		} else if m != nil && m.Shape == "logstream" {
+			// httpd serveCreateLogstream / getDefaultSchemaForLog: column store, time-sorted, block compaction, one full-text bloom filter
+			opt := o.O.options()
+			cmd.ColStoreInfo = meta.NewColStoreInfo([]string{"time"}, []string{"time"}, nil, 0, "block").Marshal()
+			cmd.IR = meta.EncodeIndexRelation(&influxql.IndexRelation{Rid: 0, Oids: []uint32{uint32(index.BloomFilterFullText)}, IndexNames: []string{index.BloomFilterFullTextIndex},
+				IndexList:    []*influxql.IndexList{{IList: []string{}}},
+				IndexOptions: []*influxql.IndexOptions{{Options: []*influxql.IndexOption{{Tokens: opt.SplitChar, Tokenizers: "standard"}}}}})
+			cmd.Options = opt.Marshal()
+			return enc(proto2.Command_CreateMeasurementCommand, proto2.E_CreateMeasurementCommand_Command, cmd)
+		}
 		if o.B {
 			ir := influxql.NewIndexRelation()
 			ir.Oids = append(ir.Oids, 4)
@@ -279,6 +383,10 @@ func (o Op) Bytes() []byte {
 			&proto2.DropMeasurementCommand{Database: proto.String(o.DB), Policy: proto.String(o.RP), Measurement: proto.String(o.Mst)})
 	case "updatemst": // metaclient.UpdateMeasurement: N = ttl
 		opt := &meta.Options{Ttl: o.N}
+		if o.O != nil { // httpd serveUpdateLogstream: the whole option set
+			opt = o.O.options()
+			opt.Ttl = o.N
+		}
 		return enc(proto2.Command_UpdateMeasurementCommand, proto2.E_UpdateMeasurementCommand_Command,
 			&proto2.UpdateMeasurementCommand{Db: proto.String(o.DB), Rp: proto.String(o.RP), Mst: proto.String(o.Mst), Options: opt.Marshal()})
 	case "createsg": // metaclient.CreateShardGroup: N = timestamp, ID = tier, N2 = engine type, ID2 = version
@@ -392,6 +500,15 @@ func (o Op) Bytes() []byte {
 		// AssignEvent/MoveEvent.marshalEvent: N pt id, ID pt owner, N2 pt status, Ns = [eventType, currState, preState, ptVer], ID2 = src, IDs = [dest, opId], B = checkConflict, B2 = db EnableTagArray
 		pi := &meta.PtInfo{Owner: meta.PtOwner{NodeID: o.ID}, Status: meta.PtStatus(o.N2), PtId: uint32(o.N), Ver: uint64(o.Ns[3])}
 		dbpt := &meta.DbPtInfo{Db: o.DB, Pti: pi, DBBriefInfo: &meta.DatabaseBriefInfo{Name: o.DB, EnableTagArray: o.B2, Replicas: 1}}
+		if len(o.Sh) > 0 {
+			dbpt.Shards = map[uint64]*meta.ShardDurationInfo{}
+			for _, x := range o.Sh {
+				dbpt.Shards[x.ID] = &meta.ShardDurationInfo{
+					Ident: meta.ShardIdentifier{ShardID: x.ID, ShardGroupID: x.SG, Policy: x.RP, OwnerDb: o.DB, OwnerPt: uint32(o.N), ShardType: x.Typ, DownSampleLevel: x.DSL,
+						DownSampleID: x.DSID, ReadOnly: x.RO, EngineType: x.Eng},
+					DurationInfo: meta.DurationDescriptor{Tier: x.Tier, TierDuration: time.Duration(x.TierDur), Duration: time.Duration(x.Dur), MergeDuration: time.Duration(x.Merge)}}
+			}
+		}
 		ev := &proto2.MigrateEventInfo{EventId: proto.String(dbpt.String()), EventType: proto.Int(int(o.Ns[0])), Pti: dbpt.Marshal(), CurrState: proto.Int(int(o.Ns[1])), PreState: proto.Int(int(o.Ns[2])),
 			Src: proto.Uint64(o.ID2), Dest: proto.Uint64(o.IDs[0]), OpId: proto.Uint64(o.IDs[1]), CheckConflict: proto.Bool(o.B)}
 		if o.K == "createevent" {
@@ -411,8 +528,16 @@ func (o Op) Bytes() []byte {
 			DesMst: &meta.StreamMeasurementInfo{Name: o.SS[2], Database: o.SS[0], RetentionPolicy: o.SS[1]},
 			Dims:   o.SS[3:], Cond: o.S, IsSelectAll: o.N == 1}
 		for _, f := range o.F {
+			if f.T < 0 { // filter-only stream (NewStreamInfoNoCall): plain column, no call name, alias = column name
+				si.Calls = append(si.Calls, &meta.StreamCall{Call: "", Field: f.N, Alias: f.N})
+				continue
+			}
 			cn := callNames[int(f.T)%len(callNames)]
-			si.Calls = append(si.Calls, &meta.StreamCall{Call: cn, Field: f.N, Alias: cn + "_" + f.N})
+			alias := cn + "_" + f.N
+			if f.E != 0 { // SELECT sum(f0) AS a<k>
+				alias = fmt.Sprintf("a%d", f.E)
+			}
+			si.Calls = append(si.Calls, &meta.StreamCall{Call: cn, Field: f.N, Alias: alias})
 		}
 		return enc(proto2.Command_CreateStreamCommand, proto2.E_CreateStreamCommand_Command, &proto2.CreateStreamCommand{StreamInfo: si.Marshal()})
 	case "dropstream":
@@ -443,7 +568,7 @@ func (o Op) Bytes() []byte {
 			info.DownSamplePolicies = append(info.DownSamplePolicies, meta.NewDownSamplePolicy(time.Duration(o.Ns[i]), time.Duration(o.Ns[i+1])))
 		}
 		for _, f := range o.F {
-			info.Calls = append(info.Calls, &meta.DownSampleOperators{AggOps: []string{f.N}, DataType: int64(f.T)})
+			info.Calls = append(info.Calls, &meta.DownSampleOperators{AggOps: strings.Split(f.N, ","), DataType: int64(f.T)})
 		}
 		return enc(proto2.Command_CreateDownSamplePolicyCommand, proto2.E_CreateDownSamplePolicyCommand_Command,
 			&proto2.CreateDownSamplePolicyCommand{Database: proto.String(o.DB), Name: proto.String(o.RP), DownSamplePolicyInfo: info.Marshal()})
